@@ -38,6 +38,11 @@ def traversal_part(ctx):
     lines = common.read_ndjson(res)
     for inv, l in found:
         r = lines[l - 1]
+        if r.get("mode") == "pagesize":
+            ctx.violation("%s@pageSize=%s" % (inv, r["pageSizeParam"]),
+                          "bunpaginate.GetPageSize answers %s for the request parameter pageSize=%r: a page of no item makes every traversal endless (hasMore stays true, the cursor does not move)" % (r["pageSize"], r["pageSizeParam"]),
+                          {"kind": "c17-pagesize", "param": r["pageSizeParam"]})
+            continue
         word = "".join(r["word"])
         kind = "forward" if "P" not in word else ("previous-after-%d-next" % word.index("P"))
         last = "last-page" if len(r["coll"]) % max(r["ps"], 1) == 0 else "partial-last-page"
@@ -71,6 +76,17 @@ def cursor_part(ctx):
 
 def replay(ctx, path):
     art = json.load(open(path))
+    if art["replay"].get("kind") == "c17-pagesize":
+        binp = ctx.build("pageconf")
+        cases = ctx.path("cases.ndjson")
+        open(cases, "w").close()
+        res = ctx.path("results.ndjson")
+        ctx.run([binp, "-in", cases, "-out", res, "-stats", ctx.path("stats.json")], timeout=300)
+        for r in common.read_ndjson(res):
+            if r.get("pageSizeParam") == art["replay"]["param"] and not r["pageSizeErr"] and r["pageSize"] < 1:
+                ctx.violation(art["signature"], "GetPageSize answers %s" % r["pageSize"], art["replay"])
+        ctx.coverage.update({"states": 1, "transitions": 1, "traces_validated_against_impl": 1})
+        return
     if art["replay"].get("kind") != "c17-traversal":
         import c17_cursors
         return c17_cursors.replay(ctx, art)
